@@ -74,7 +74,8 @@ def pytest_runtest_teardown(item, nextitem):
         n += 1
         ctx = {}
         for key, attr in (("alpha", "_alpha"), ("alpha_alt", "_alpha_alt"),
-                          ("only_larger", "_only_larger"), ("population", "_population")):
+                          ("only_larger", "_only_larger"), ("population", "_population"),
+                          ("mask_size", "_mask_size")):
             g = read(part, attr)  # hooked state: what this partition was configured with
             ctx[key] = g.value if g.ok else None
         ctx["display_transforms"] = True  # unknown here: relations that need "none" are skipped
